@@ -120,6 +120,7 @@ class GOb(Obligation):
 
     def _run(self):
         with B.symbolic_session(tenalg=self.tenalg):
+            G.INPUTS.clear()
             S = SymNS()
             I = self.setup(S)
             assum = self.assumptions(I) if self.assumptions else []
